@@ -185,6 +185,23 @@ def check_object(rec, obj, layout, N, rng, tag, n_draws, priors):
             rec.count("outside_support_evaluations")
             rec.check((not isinstance(v2, Raised)) and float(v2) <= ZERO, "nonzero-outside-support",
                       lambda: f"{tag} log-density {v2!r} at a point outside the support of coordinate {i} ({layout[i].describe()}, value {t2[i]!r})", ctx)
+            # the edge of the support: a coordinate exactly on an advertised bound is inside, the next float beyond it is outside
+            i = int(rng.choice(limited))
+            sp = layout[i].support()
+            for side, edge in (("lower", sp[0]), ("upper", sp[1])):
+                if edge is None:
+                    continue
+                te = np.array(theta, dtype=float)
+                te[i] = edge
+                ve = guarded(obj, te)
+                want_e = sum(layout[k].logpdf(float(te[k])) for k in idxs)
+                rec.count("support_edge_evaluations")
+                rec.check((not isinstance(ve, Raised)) and np.isfinite(want_e) and abs(float(ve) - want_e) <= tol + 64 * np.finfo(float).eps * abs(want_e), "support-edge",
+                          lambda: f"{tag} log-density {ve!r} with coordinate {i} exactly on its advertised {side} bound {edge!r} ({layout[i].describe()}); the density there is {want_e!r}", ctx)
+                te[i] = np.nextafter(edge, -np.inf if side == "lower" else np.inf)
+                vo = guarded(obj, te)
+                rec.check((not isinstance(vo, Raised)) and float(vo) <= ZERO, "nonzero-outside-support",
+                          lambda: f"{tag} log-density {vo!r} with coordinate {i} at {te[i]!r}, one float beyond its advertised {side} bound {edge!r}", ctx)
             # a point outside on a coordinate the object does NOT cover must not matter
         free = [i for i in range(N) if i not in layout]
         if free:
